@@ -348,8 +348,102 @@ def r16e(run):
               message="TypeTransformer.apply re-binds `func` before calling it")
 
 
+def r16f(run):
+    """the converter is looked up when the value is converted: a conversion that is handed a converter resolved when the
+    class / field was *declared* (an attribute filled from resolver_transformer at set-up time) keeps using the
+    registration that matched then"""
+    from . import c04
+    # attributes that hold declaration-time resolutions: `<x>.<attr> = ...resolver_transformer(...)` / a tuple built from it
+    held = {}
+    for f in run.repo.all_functions():
+        if not f.module.name.startswith("utype.parser") and f.module.name != "utype.schema":
+            continue
+        fa = analysis(f)
+        resolved_locals = set()
+        for n in fa.cfg.nodes:
+            if n.kind == "stmt" and isinstance(n.ast, ast.Assign) and any(
+                    isinstance(c, ast.Call) and call_attr(c) in ("resolver_transformer", "resolve") for c in ast.walk(n.ast.value)):
+                for t in n.ast.targets:
+                    if isinstance(t, ast.Name):
+                        resolved_locals.add(t.id)
+                    elif isinstance(t, ast.Attribute):
+                        held.setdefault(t.attr, []).append(f)
+        # containers of resolved locals: lst.append(<resolved local>) ... <x>.<attr> = tuple(lst)
+        grown = set(resolved_locals)
+        changed = True
+        while changed:
+            changed = False
+            for n, c in fa.all_calls():
+                if call_attr(c) in ("append", "extend", "add") and isinstance(c.func.value, ast.Name) and c.args \
+                        and names_in(c.args[0]) & grown and c.func.value.id not in grown:
+                    grown.add(c.func.value.id)
+                    changed = True
+            for n in fa.cfg.nodes:
+                if n.kind == "stmt" and isinstance(n.ast, ast.Assign) and names_in(n.ast.value) & grown:
+                    for t in n.ast.targets:
+                        if isinstance(t, ast.Name) and t.id not in grown:
+                            grown.add(t.id)
+                            changed = True
+                        elif isinstance(t, ast.Attribute) and f not in held.get(t.attr, []):
+                            held.setdefault(t.attr, []).append(f)
+    run.notes.append(f"R16f: attributes filled with declaration-time resolutions: {sorted(held)}")
+    sites = 0
+    for f in c04.in_scope_functions(run):
+        fa = analysis(f)
+        for n, c in fa.all_calls():
+            fk = kwarg(c, "func")
+            if call_attr(c) != "apply" or fk is None or (isinstance(fk, ast.Constant) and fk.value is None):
+                continue
+            sites += 1
+            # where does the handed converter come from
+            srcs = set()
+
+            def attrs_of(e, node, depth=0):
+                for x in ast.walk(e):
+                    if isinstance(x, ast.Attribute) and x.attr in held:
+                        srcs.add(x.attr)
+                if depth < 4:
+                    for x in ast.walk(e):
+                        if isinstance(x, ast.Name) and x.id in fa.rd.locals:
+                            for o in prov(fa).of_name(node, x.id):
+                                if o.node is not None and o.at is not None:
+                                    attrs_of(o.node, o.at, depth + 1)
+                                if o.kind in ("iter", "iter-unpack") and any(h in o.text for h in held):
+                                    srcs.update(h for h in held if h in o.text)
+            attrs_of(fk, n)
+            run.check("R16f", f, f"`{unparse(c)[:60]}` looks the converter up at conversion time", not srcs,
+                      construct=f"declaration-time converter {'/'.join(sorted(srcs))} used by {f.name}",
+                      message=f"{f.qualname}: `{unparse(c)[:80]}` is handed `{unparse(fk)}`, which comes from "
+                              f"{sorted(srcs)}: resolved once when the type was declared "
+                              f"({', '.join(sorted({g.qualname for a in srcs for g in held[a]}))})",
+                      necessity="a registration made after the declaration is ignored for these conversions: "
+                                "List[Money] keeps converting its elements with the converter that matched when the field "
+                                "was declared", node=c)
+    run.floor("R16f", "conversions handed a converter", sites, 3)
+
+
+def r16g(run):
+    """the memo is a dict keyed by the type object: two distinct types must never be equal keys.  Classes compare by
+    identity unless a metaclass overrides __eq__ / __hash__ - the library's metaclasses must not"""
+    metas = []
+    for m in run.repo.modules.values():
+        for C in m.classes.values():
+            bases = {b.split(".")[-1] for b in C.base_names}
+            if "type" in bases or bases & {"LogicalType", "ABCMeta", "LogicalMeta"} or C.name.endswith("Meta"):
+                metas.append(C)
+    run.floor("R16g", "metaclasses of the library", len(metas), 2)
+    for C in metas:
+        over = sorted(n for n in ("__eq__", "__hash__") if n in C.methods or n in C.assigns)
+        run.check("R16g", C.ref, f"types created by {C.name} compare by identity", not over,
+                  construct=f"metaclass {C.name} overrides {'/'.join(over)}",
+                  message=f"metaclass {C.name} defines {over}: two distinct types it creates can be equal dictionary keys, so "
+                          f"they share one entry of the registry's memo (a dict keyed by the type)",
+                  necessity="the second of two equal-but-distinct types gets the converter memoised for the first without "
+                            "its own detectors (attribute, detector function) being consulted")
+
+
 def check(run):
-    run.rules_run += ["R16a", "R16b", "R16c", "R16d", "R16e"]
+    run.rules_run += ["R16a", "R16b", "R16c", "R16d", "R16e", "R16f", "R16g"]
     run.explain("C16: (R16a) every write to the registration list is followed on all paths by a reset of the resolve "
                 "memo; (R16b) after each insertion at the front the list is unconditionally stably sorted by the "
                 "priority component, descending; (R16c) every registration criterion reaches the generated detector "
@@ -361,3 +455,5 @@ def check(run):
     r16c(run, C)
     r16d(run, C)
     r16e(run)
+    r16f(run)
+    r16g(run)
